@@ -359,6 +359,8 @@ Close(micro, raw, P, Q) == Abs(micro * Q - raw * P) <= Q * (1 + Abs(micro) \div 
 
 IsInt(x) == x \in Int
 
+StationShape(sts) == [i \in 1..Len(sts) |-> [j \in 1..Len(sts[i].messages) |-> Len(sts[i].messages[j].slot_offset)]]
+
 \* violations of one field: a set of <<property, field name, what>>
 FieldViol(d, obs, known) ==
     LET devOk(pred(_)) == \E i \in 1..Len(d.devs) : d.devs[i].dev \in known /\ pred(d.devs[i])
@@ -371,6 +373,12 @@ FieldViol(d, obs, known) ==
               \* the communication state is made of fixed-position integers (slot parameters): a wrong
               \* value there contradicts C04 as well as C16
               ELSE IF d.prop = "C16" THEN {<<"C16", d.name, "value">>, <<"C04", d.name, "value">>}
+              \* type 15: a different number of stations / requests / offsets than the bits present call for is
+              \* C14's concern; wrong values in the right structure are C04's
+              ELSE IF d.name = "stations"
+                   THEN IF StationShape(obs) \in {StationShape(x) : x \in d.vals}
+                        THEN {<<"C04", d.name, "value">>}
+                        ELSE {<<"C14", d.name, "structure">>, <<"C04", d.name, "structure">>}
               ELSE {<<d.prop, d.name, "value">>}
     ELSE IF d.kind = "f"
     THEN IF IsInt(obs) /\ Close(obs, d.raw, d.P, d.Q) THEN {} ELSE {<<"C10", d.name, "value">>}
